@@ -168,6 +168,20 @@ class CallMixin(object):
             if name == 'clear':
                 self.assign(m.rows_lv(), 0)
                 return VOID
+            if name == 'assign' and len(arg_nodes) == 2:
+                # vector::assign(n, value): n copies of one vector
+                cnt = self.scalar(self.ev(arg_nodes[0]), n)
+                v = self.rd(self.ev(arg_nodes[1]))
+                if not (isinstance(v, Mat) and v.is_vector() and cint(v.vlen()) == m.C):
+                    fail(n, 'assign of a non-vector')
+                vals = [self.scalar(v.vat(c), n) for c in range(m.C)]
+                self.assign(m.rows_lv(), cnt)
+                from ir import MapAssign
+                self.emit(MapAssign(0, cnt, [(m.lv(0, j).name, REAL, m.lv(0, j).index) for j in range(m.C)], [(lambda r, x=x: x) for x in vals]))
+                return VOID
+            if name == 'resize' and len(arg_nodes) == 1:
+                self.resize(m, self.scalar(self.ev(arg_nodes[0]), n), None, n)
+                return VOID
         if name == 'row':
             i = a(0)
             if isinstance(m, StoreMat):
